@@ -18,7 +18,12 @@ RULE = ('class models with hierarchies (single/multiple inheritance, abstract cl
         'documents with and without explicit tags; each case is re-run under permutations of the '
         'registration order and of every Union\'s members and must give the same outcome; abstract and '
         'unregistered classes must never be instantiated; model and real recognised outcome compared.  '
-        'Non-trivial = the document type involves a class with registered subclasses or a Union.')
+        'Non-trivial = the document type involves a class with registered subclasses or a Union.'
+        'Directed families: small hierarchies (chains, siblings, unions; abstract middle classes;'
+        ' with and without _yatiml_extra) with documents written for one chosen class and then a'
+        ' key dropped / added / a tag, judged by the reference pipeline; URI tags (%TAG handles,'
+        ' primary handle, verbatim); Union members told apart by recognisers that pin an int'
+        ' written in every YAML 1.1 spelling.')
 ASSUMPTIONS = ['typing.Union normalisation (flattening, duplicate removal) is CPython\'s']
 
 
